@@ -56,6 +56,7 @@ def repo_env(extra=None):
     env["PYTHONPATH"] = REPO_COMPILER + os.pathsep + REPO_LIBPY
     env["BITPROTO_VERIF"] = "1"
     env.setdefault("PYTHONHASHSEED", "0")
+    env.setdefault("PYTHONUTF8", "1")       # schema files are UTF-8 text whatever the caller's locale
     if extra:
         env.update(extra)
     return env
